@@ -1,6 +1,9 @@
 package router
 
-import "github.com/gammazero/nexus/v3/wamp"
+import (
+	"github.com/gammazero/nexus/v3/transport"
+	"github.com/gammazero/nexus/v3/wamp"
+)
 
 // C11: nothing crosses realm boundaries. Realm B holds state; a session of
 // realm A aims every kind of request at B's URIs and ids.
@@ -125,3 +128,116 @@ func vC11(nOps int, template bool) {
 func Harness_C11_Realms_2()         { vC11(2, false) }
 func Harness_C11_RealmsTemplate_1() { vC11(1, true) }
 func Harness_C11_Realms_3()         { vC11(3, false) }
+
+// Two in-process clients whose HELLO messages share one details dict (e.g.
+// one configuration reused for two connections) join different realms; the
+// first comes with transport details. Nothing of it shows up in the other realm.
+func Harness_C11_SharedHelloDetails() {
+	r := vNewRouter(&Config{RealmConfigs: []*RealmConfig{
+		{URI: "realm.a", AnonymousAuth: true}, {URI: "realm.b", AnonymousAuth: true}}})
+	shared := wamp.Dict{"roles": vAllRoles, "authid": "same-config"}
+	if vBool("custom-detail") {
+		shared["x_custom"] = wamp.Dict{"k": 1}
+	}
+	nShared := len(shared)
+	attach := func(realm wamp.URI, td wamp.Dict) wamp.ID {
+		c, rp := transport.LinkedPeersQSize(16)
+		go func() { c.Send() <- &wamp.Hello{Realm: realm, Details: shared} }()
+		err := r.AttachClient(rp, td)
+		vAssert("attached", err == nil)
+		if err != nil {
+			return 0
+		}
+		w, ok := (<-c.Recv()).(*wamp.Welcome)
+		vAssert("welcome", ok)
+		if !ok {
+			return 0
+		}
+		return w.ID
+	}
+	td := wamp.Dict{"peer": "10.1.1.1:5000"}
+	if vBool("with-auth") {
+		td["auth"] = wamp.Dict{"cookie": "secret"}
+	}
+	idA := attach("realm.a", td)
+	idB := attach("realm.b", nil)
+	sa := r.realms["realm.a"].clients[idA]
+	sb := r.realms["realm.b"].clients[idB]
+	vAssert("both-attached", sa != nil && sb != nil)
+	if sa == nil || sb == nil {
+		return
+	}
+	_, aHas := sa.Details["transport"]
+	vAssert("own-transport-details-recorded", aHas)
+	_, leaked := sb.Details["transport"]
+	vAssert("transport-details-of-another-realms-session-do-not-leak", !leaked)
+	vAssert("the-clients-own-hello-dict-is-not-written-to", len(shared) == nShared)
+	vCover("shared-hello-checked")
+}
+
+// While one realm is being removed - and its shutdown is held up by a busy
+// session handler - the other realms go on: their sessions are served, new
+// sessions join them, realms can be added.
+func Harness_C11_RemoveRealmDoesNotHoldUpOthers() {
+	entered := make(chan struct{})
+	release := make(chan struct{})
+	ff := func(msg *wamp.Publish) PublishFilter {
+		if msg.Topic == "gate.topic" {
+			close(entered)
+			<-release
+		}
+		return nil
+	}
+	r := vNewRouter(&Config{RealmConfigs: []*RealmConfig{
+		{URI: "realm.a", AnonymousAuth: true, PublishFilterFactory: ff}, {URI: "realm.b", AnonymousAuth: true}}})
+	a := vAttach(r, "realm.a", nil, 64)
+	b := vAttach(r, "realm.b", nil, 64)
+	vAssert("attached", a != nil && b != nil)
+	a.send(&wamp.Publish{Request: 2, Topic: "gate.topic"})
+	<-entered // a's handler is busy: the shutdown of realm.a has to wait for it
+	removed := make(chan struct{})
+	go func() {
+		r.RemoveRealm("realm.a")
+		close(removed)
+	}()
+	vQuiesce()
+	select {
+	case <-removed:
+		vAssert("removal-waits-for-the-busy-handler", false)
+	default:
+	}
+	// meanwhile, in and around realm.b
+	vBystanderServed(r, b)
+	joined := make(chan struct{})
+	var b2 *vClient
+	go func() {
+		b2 = vAttach(r, "realm.b", nil, 64)
+		close(joined)
+	}()
+	vQuiesce()
+	select {
+	case <-joined:
+		vAssert("new-session-joins-other-realm-during-removal", b2 != nil)
+	default:
+		vAssert("join-of-other-realm-not-held-up-by-removal", false)
+	}
+	added := make(chan struct{})
+	var aerr error
+	go func() {
+		aerr = r.AddRealm(&RealmConfig{URI: "realm.c", AnonymousAuth: true})
+		close(added)
+	}()
+	vQuiesce()
+	select {
+	case <-added:
+		vAssert("realm-added-during-removal", aerr == nil)
+	default:
+		vAssert("adding-a-realm-not-held-up-by-removal", false)
+	}
+	close(release)
+	<-removed
+	<-joined
+	<-added
+	vBystanderServed(r, b)
+	vCover("remove-realm-isolation-checked")
+}
